@@ -273,4 +273,92 @@ theorem Model.resolve_after_addNode (m : Model) (obj obj' : Obj) (lower lower' :
     rw [hds] at hfv ⊢
     simp only [htw', Bool.false_eq_true, if_false, hfv]
 
+/-! ### vertices -/
+
+/-- the `VertexDict` key of a point object (`cps[..., :-1]` when rational) -/
+def pointKey (obj : Obj) : List ℚ :=
+  if obj.rational then (obj.cps.data.getD 0 []).dropLast else obj.cps.data.getD 0 []
+
+theorem Model.newNode_verts (m : Model) (obj : Obj) (lower : List (List ℕ)) (index : ℕ) :
+    (m.newNode obj lower index).1.verts = m.verts := by
+  -- `verts` is not touched by any of the node operations
+  have hfold : ∀ {α : Type} (l : List α) (step : Model → α → Model)
+      (_ : ∀ m' x, (step m' x).verts = m'.verts) (m' : Model), (l.foldl step m').verts = m'.verts := by
+    intro α l step hstep m'
+    induction l generalizing m' with
+    | nil => rfl
+    | cons x xs ih => simp only [List.foldl_cons]; rw [ih, hstep]
+  have htr : ∀ (fuel : ℕ) (m' : Model) (a b : ℕ), (Model.transferOwnership fuel m' a b).verts = m'.verts := by
+    intro fuel
+    induction fuel with
+    | zero => intro m' a b; rfl
+    | succ fuel ih =>
+      intro m' a b
+      simp only [Model.transferOwnership]
+      split
+      · rw [hfold]
+        · rfl
+        · intro m'' x; split
+          · exact ih _ _ _
+          · rfl
+      · rfl
+  unfold Model.newNode
+  dsimp only
+  split
+  · refine (hfold _ _ ?_ _).trans ((hfold _ _ ?_ _).trans rfl)
+    · intro m' x
+      split
+      · exact htr _ _ _ _
+      · rfl
+    · intro m' x
+      refine hfold _ _ ?_ _
+      intro m'' k; rfl
+  · refine (hfold _ _ ?_ _).trans rfl
+    intro m' x
+    refine hfold _ _ ?_ _
+    intro m'' k; rfl
+
+/-- **Vertices are canonical** (exact keys): after `lookup(point, add=True)` in any state, a
+    lookup (with or without `add`) of any point object with the same key returns the same node. -/
+theorem Model.lookupPoint_after_add (m m1 : Model) (obj obj' : Obj) (id : ℕ) (o : Orientation)
+    (hkey : pointKey obj' = pointKey obj)
+    (h : m.lookupPoint obj true = .ok (m1, id, o)) (add : Bool) :
+    ∃ m2, m1.lookupPoint obj' add = .ok (m2, id, Orientation.identity 0) ∧ m2.verts = m1.verts := by
+  unfold Model.lookupPoint at h
+  simp only [if_true] at h
+  have hk : (if obj.rational then (obj.cps.data.getD 0 []).dropLast else obj.cps.data.getD 0 []) = pointKey obj := rfl
+  rw [hk] at h
+  -- the stored entry for this key after the add
+  have hfound : ∃ kv, m1.verts.find? (fun kv => kv.1 == pointKey obj) = some kv ∧ kv.2 = id := by
+    cases hf : (m.modifyLevel 0 (fun lv => { lv with count := lv.count + 1 })).verts.find?
+        (fun kv => kv.1 == pointKey obj) with
+    | some kv =>
+      rw [hf] at h
+      simp only [Except.ok.injEq, Prod.mk.injEq] at h
+      obtain ⟨rfl, rfl, _⟩ := h
+      exact ⟨kv, hf, rfl⟩
+    | none =>
+      rw [hf] at h
+      simp only [Except.ok.injEq, Prod.mk.injEq] at h
+      obtain ⟨rfl, rfl, _⟩ := h
+      refine ⟨(pointKey obj, _), ?_, rfl⟩
+      simp only [Array.find?_push, Model.newNode_verts, hf, Option.none_or, beq_self_eq_true, if_true]
+  obtain ⟨kv, hkv, hid⟩ := hfound
+  unfold Model.lookupPoint
+  dsimp only
+  have hk' : (if obj'.rational then (obj'.cps.data.getD 0 []).dropLast else obj'.cps.data.getD 0 []) = pointKey obj := hkey
+  rw [hk']
+  cases add with
+  | true =>
+    simp only [if_true]
+    have : (m1.modifyLevel 0 (fun lv => { lv with count := lv.count + 1 })).verts = m1.verts := rfl
+    rw [this, hkv]
+    refine ⟨m1.modifyLevel 0 (fun lv => { lv with count := lv.count + 1 }), ?_, rfl⟩
+    simp only [hid]
+  | false =>
+    simp only [Bool.false_eq_true, if_false]
+    rw [hkv]
+    refine ⟨m1, ?_, rfl⟩
+    simp only [hid]
+
 end Splipy.MP
